@@ -86,7 +86,7 @@ def reviews : List Review := [
   ⟨"x/issuance", "BeginBlocker", "k.SeizeCoinsForBlockableAssets", .deadCode "F10 mechanism (seizure sends GetAllBalances, which includes vesting-locked coins) exists, but x/issuance AppModule.BeginBlock is empty: issuance.BeginBlocker never runs (replayed: a blocked periodic-vesting account with locked asset coins is neither seized nor does the block panic)"⟩,
   ⟨"x/issuance", "Keeper.GetPreviousBlockTime", "blockTime.UnmarshalBinary", .codec⟩,
   ⟨"x/issuance", "Keeper.SetPreviousBlockTime", "blockTime.MarshalBinary", .codec⟩,
-  ⟨"x/kavadist", "BeginBlocker", "k.MintPeriodInflation", .finding "F11" "partner rewards × elapsed time above the minted amount returns \"negative coins\" (configuration); see also F12: a zero mint makes mintInfrastructurePeriods dereference a nil amount (kavadist-zero-mint-nil-amount)"⟩,
+  ⟨"x/kavadist", "BeginBlocker", "k.MintPeriodInflation", .finding "F11" "partner rewards × elapsed time above the minted amount returns \"negative coins\" (a configuration that passes params validation): kavadist-partner-rewards-exceed-mint. (F12, the nil amount on a zero mint, is fixed in /repo.)"⟩,
   ⟨"x/kavadist", "Keeper.SetPreviousBlockTime", "blockTime.MarshalBinary", .codec⟩
 ]
 
@@ -151,17 +151,17 @@ def sumInts (l : List Int) : Int := l.foldl (· + ·) 0
 def debtShares (deps : List Int) (debt : Int) : List Int :=
   deps.map (fun d => debtShare d (sumInts deps) debt)
 
-/-! ### kavadist `mintInfrastructurePeriods` (x/kavadist/keeper/infrastructure.go)
+/-! ### kavadist `mintInfrastructurePeriods` / `distributeInfrastructureCoins` (x/kavadist/keeper)
 
-    `mintInflationaryCoins` returns the zero value `sdk.Coin{}` (nil amount) when the amount to mint
-    truncates to zero; the caller then evaluates `coins.IsZero()` on it, which dereferences the nil
-    `*big.Int`. `none` is the nil amount. -/
+    After the fix "kavadist begin blocker panics when an infrastructure period mints zero coins",
+    `mintInflationaryCoins` returns a well-formed zero coin when the amount to mint truncates to zero
+    (before, it returned `sdk.Coin{}` and the caller's `coins.IsZero()` dereferenced a nil amount: F12). -/
 
 inductive R (α : Type) | ok (a : α) | panic
 deriving DecidableEq, Repr
 
-/-- result coin of `mintInflationaryCoins`: `none` = `sdk.Coin{}` -/
-def mintResult (amountToMint : Int) : Option Int := if amountToMint == 0 then none else some amountToMint
+/-- result coin of `mintInflationaryCoins`: `none` would be the nil-amount `sdk.Coin{}` -/
+def mintResult (amountToMint : Int) : Option Int := some amountToMint
 
 /-- `if !coins.IsZero() { coinsMinted = coinsMinted.Add(coins) }` on the returned coin -/
 def infraAccumulate (minted : Int) (coin : Option Int) : R Int :=
@@ -170,5 +170,14 @@ def infraAccumulate (minted : Int) (coin : Option Int) : R Int :=
   | some a => .ok (if a == 0 then minted else minted + a)
 
 def infraStep (minted amountToMint : Int) : R Int := infraAccumulate minted (mintResult amountToMint)
+
+/-- partner loop of `distributeInfrastructureCoins`: every partner is paid `rps · elapsed`; when the coins
+    still to distribute do not cover it, `safeSub` reports "negative coins", the error is returned to
+    `BeginBlocker` and escalated to a panic -/
+def payPartners (toDistribute elapsed : Int) : List Int → R Int
+  | [] => .ok toDistribute
+  | rps :: rest =>
+    if toDistribute < rps * elapsed then .panic
+    else payPartners (toDistribute - rps * elapsed) elapsed rest
 
 end KV.Safe
